@@ -112,7 +112,7 @@ func devCmd(args []string) {
 			if r.Status != want {
 				mark = "FAIL"
 			}
-			fmt.Printf("%s %-70s %-8s %-10s %.2fs\n", mark, o.Name, r.Status, r.Backend, r.Seconds)
+			fmt.Printf("%s %-70s %-8s %-10s %.2fs %s\n", mark, o.Name, r.Status, r.Backend, r.Seconds, o.Pos)
 			if r.Status == "error" {
 				fmt.Println(firstLines(r.Output, 5))
 			}
